@@ -292,7 +292,7 @@ class Node:
         If `replace` is true, previous metatdata will be cleared.
         """
         if replace or self._meta is None:
-            self._meta = values.copy()
+            self._meta = values.copy() or None  # store None instead of `{}`
         else:
             self._meta.update(values)
 
